@@ -161,11 +161,13 @@ Definition implb (a b : bool) : bool := negb a || b.
 Definition no_ext_ft (f : functype) : bool := forallb no_ext (ft_in f) && forallb no_ext (ft_out f).
 Definition clean_ft (reg : registry) (f : functype) : bool :=
   forallb (clean reg) (ft_in f) && forallb (clean reg) (ft_out f).
-(* an operation loaded from serial form holds no definition-backed type *)
+(* an operation loaded from serial form is opaque and holds no definition-backed type (a definition-backed operation
+   built directly is not resolved at all - ExtOp has no resolve - so the every-depth clause does not speak about it) *)
 Definition loaded_op (o : op) : bool :=
   match o with
   | OCustom c => no_ext_ft (c_sig c) && forallb no_ext_arg (c_args c)
-  | _ => true
+  | OExt _ => false
+  | OOther _ => true
   end.
 (* every depth, for operations: a resolved operation holds no resolvable opaque type *)
 Definition clean_op (reg : registry) (o : op) : bool :=
@@ -202,9 +204,9 @@ Definition mon_node (reg : registry) (n : node_obs) : bool :=
   op_eqb (n_res2 n) (n_res n) &&
   option_eqb export_eqb (n_exp1 n) (n_exp0 n) &&
   (* port types: those of a resolved operation are the resolved port types, all others are identical *)
-  (match n_res n with
-   | OExt _ => list_eqb (rty_b reg) (n_pt0 n) (n_pt1 n)
-   | _ => list_eqb ty_eqb (n_pt0 n) (n_pt1 n)
+  (match n_op n, n_res n with
+   | OCustom _, OExt _ => list_eqb (rty_b reg) (n_pt0 n) (n_pt1 n)
+   | _, _ => list_eqb ty_eqb (n_pt0 n) (n_pt1 n)
    end) &&
   implb (consistent_op reg (n_op n))
         (ser_same reg (n_ser0 n) (n_ser1 n) && list_eqb obound_eqb (n_pb1 n) (n_pb0 n)).
